@@ -88,13 +88,18 @@ class C02(Check):
                         if self.tier == "quick" and len(struct) >= 3 and (i + gi) % 3 != self.seed % 3:
                             continue
                         yield (wk, build, struct, planted, (), gap)
-        if self.tier == "thorough":
-            for name in ("cyp2c19", "cyp2c9", "nat2", "tpmt", "cyp3a5", "ugt1a1", "cyp2a6", "cyp2b6"):
-                wk = ("shipped", name)
-                gene = worlds.gene_of(wk, "hg19")
-                ms = majors_of(gene, "1")
-                for pair in itertools.combinations_with_replacement(ms, 2):
-                    yield (wk, "hg19", ("1", "1"), pair, (), 0.0)
+        names = ("cyp2c19", "cyp2c9", "nat2", "tpmt", "cyp3a5", "ugt1a1", "cyp2a6", "cyp2b6")
+        if self.tier == "quick":
+            names = (names[self.seed % len(names)], names[(self.seed + 3) % len(names)])
+        for name in names:
+            wk = ("shipped", name)
+            build = "hg19" if self.tier == "thorough" or self.seed % 2 == 0 else "hg38"
+            gene = worlds.gene_of(wk, build)
+            ms = majors_of(gene, "1")
+            pairs = list(itertools.combinations_with_replacement(ms, 2))
+            step = max(1, len(pairs) // 150) if self.tier == "quick" else 1
+            for pair in pairs[self.seed % step::step]:
+                yield (wk, build, ("1", "1"), pair, (), 0.0)
 
     def successors(self, st):
         wk, build, struct, planted, devs, gap = st
@@ -148,6 +153,13 @@ class C02(Check):
         p = Profile("verif", gap=gap)
         cov = tables.to_coverage(gene, p, table)
         cn = CNSolution(gene, 0, list(struct))
+        if (len(planted) + len(devs) + int(gap * 10) + (devs[0][1] if devs else 0)) % 3 == 0:
+            # as genotype() does when several structures compete: the SAME evidence object is first solved under
+            # another structure (one more default copy); the judged call must not be affected by it
+            try:
+                estimate_major(gene, cov, CNSolution(gene, 0, list(struct) + ["1"]), "any")
+            except Exception:
+                pass
         sols = estimate_major(gene, cov, cn, "any")
         got = []
         for s in sols:
